@@ -1112,6 +1112,8 @@ class C11Executor(_verify.Executor):
                     return None
                 if isinstance(x, _ast.Name) and x.id not in own:
                     v = st.lookup(x.id)
+                    if v is None and self._immutable_module_literal(x.id):
+                        continue       # round 8: a literal hoisted into a module constant (`_TAG = "encryption-data"`)
                     if not isinstance(v, (VUnk, VInt, VBool, VStr, VReal, VNoneT)):
                         return None
         outs = []
@@ -1121,6 +1123,40 @@ class C11Executor(_verify.Executor):
             self.exc_any(s2.fork(), f"{self.loc(n)} {n.func.id}(<scan of an unknown library value>)")
             outs.append((s2, VBool(z3.Bool(fresh_name(n.func.id)))))
         return outs
+
+    # -- round 8: a module-level name of the module under execution whose ONLY binding is `NAME = <literal>` with an immutable
+    #    literal value (str / bytes / number / bool / None, tuples of those): not a parameter or local, not a function / class /
+    #    import, never declared `global` in a function, no `globals()` / `setattr` / `exec` reflection in the module.  Loading it
+    #    cannot touch a container, a stream or a heap object, whatever its value.
+    def _immutable_module_literal(self, name):
+        import ast as _ast
+        mod = self.module
+        if name in mod.functions or name in mod.classes or name in mod.imports or name not in mod.assigns:
+            return False
+        if (mod.rel, name) in self.reg.module_consts:
+            return False
+        if self.global_writers(name) or getattr(mod, "_greflect", False):
+            return False
+        stores = 0
+        for x in _ast.walk(mod.tree):
+            if isinstance(x, _ast.Name) and x.id == name and not isinstance(x.ctx, _ast.Load):
+                stores += 1
+            elif isinstance(x, (_ast.arg,)) and x.arg == name:
+                return False
+            elif isinstance(x, _ast.alias) and (x.asname or x.name.split(".")[0]) == name:
+                return False
+        if stores != 1:
+            return False
+        try:
+            pyv = _ast.literal_eval(mod.assigns[name])
+        except (ValueError, SyntaxError, TypeError, MemoryError, RecursionError):
+            return False
+
+        def flat(v, depth=0):
+            if v is None or isinstance(v, (str, bytes, bool, int, float)):
+                return True
+            return isinstance(v, tuple) and depth < 3 and all(flat(y, depth + 1) for y in v)
+        return flat(pyv)
 
     def e_Call(self, n, st):
         try:
